@@ -211,6 +211,7 @@ SMS_QUICK = [
     ('concat[sms(ab/cd first unmapped),rawstr1]', CC(SM('ab\ncd', 'A,CAAA;?ACA', ('o.js',)), RS('!'))),
     ('concat[rawstr1,sms(ab/cd named)]', CC(RS('!'), SM('ab\ncd', 'AAAAA,?AAAC;AACA', ('o.js',), (), ('n1', 'n2')))),
     ('concat[sms 2 sources,sms shared source]', CC(SM('ab', 'AAAA,?CAA', ('o.js', 'p.js'), ('ab', 'pq')), SM('cd', 'AAAA,?AAA', ('p.js',), ('pq',)))),
+    ('replace(sms(abc/de, generated-only segment last on its line while the text continues),[sym X])', RP(SM('abc\nde', 'AAAA,?;AACA', ('o.js',)), (Q, Q, 'X'))),
     ('replace(sms(abcd content differs),[sym X])', RP(SM('abcd', 'AAAA,EAAE', ('o.js',), ('wxyz',)), (Q, Q, 'X'))),
     ('replace(sms(abcd content equal, named),[sym X])', RP(SM('abcd', 'AAAAA,EAAEC', ('o.js',), ('abcd',), ('n1', 'n2')), (Q, Q, 'X'))),
     ('sms(empty text, empty map)', SM('', '', ('o.js',))),
@@ -616,6 +617,8 @@ def c13_jobs(tier, seed):
 # properties must hold on it as well. Each tree is observed AFTER a history that fills the cache; the ones marked rope='real'
 # interpret rope.rs itself, because the replay derives the generated end position from Rope::lines / Rope::len.
 CACHED_QUICK = [
+    ('cached(replace(orig ab;c,[sym X named])) cold cache, lines-only stream first (names announced through the fill pass)', CA(RP(O('ab;c'), (Q, Q, 'X', 'n'))), dict(what=['c0f0', 'c1f0', 'map0', 'map1', 'source'])),
+    ('replace(cached(concat[orig a;,rawstr]),[sym X]) after map (the cached map ends a line with a generated-only segment)', RP(CA(CC(O('a;'), RS('!!\n!'))), (Q, Q, 'X')), dict(history=['map1'])),
     ('cached(orig a;//?) after map(columns): lines-only MAP observed first (a blank line is mapped only line by line)', CA(O('a;\n\n?')), dict(history=['map1'], what=['map0', 'c0f0', 'c0f1', 'map1', 'c1f0', 'source'])),
     ('cached(concat[rawstr,orig of line breaks only]) after map(columns)=None: lines-only MAP observed first', CA(CC(RS('!'), O('\n\n'))), dict(history=['map1'], what=['map0', 'c0f0', 'map1', 'c1f0', 'source'])),
     ('cached(replace(sms 2 segments on a line,[sym del])) after a columns stream: lines-only MAP observed first', CA(RP(SM('abcd', 'AAIA,EAEA', ('o.js',)), (Q, Q, ''))), dict(history=['c1f0'], what=['map0', 'c0f0', 'map1', 'c1f0', 'source'])),
